@@ -266,7 +266,12 @@ pub fn gen(rng: &mut Rng, thorough: bool, out: &mut Sink) {
     // ---- generated definitions
     let ndefs = if thorough { 400 } else { 40 };
     for d in 0..ndefs {
-        let def = crate::enc::gen_full_definition(rng, false, false);
+        let mut def = crate::enc::gen_full_definition(rng, false, false);
+        if d % 2 == 1 {
+            // different tokenizers of one process with different multi-byte split characters and patterns:
+            // nothing one tokenizer does may show in another
+            crate::enc::c18_spice(rng, &mut def);
+        }
         let mut lines = Vec::new();
         let tk = load(slot, "generated", def, &mut lines);
         slot += 1;
@@ -276,6 +281,27 @@ pub fn gen(rng: &mut Rng, thorough: bool, out: &mut Sink) {
         }
         let texts: Vec<String> = (0..(if thorough { 24 } else { 12 })).map(|_| crate::enc::text_for_pub(rng, &tk.def)).collect();
         histories_and_threads(rng, &tk, &texts, true, thread_counts[d % thread_counts.len()], out, &mut lines);
+        // the same definition in a fresh process (nothing else has run there) must answer as it does here,
+        // where many other tokenizers have been used before
+        if let Some(tok) = &tk.tok {
+            let p = std::env::current_dir().unwrap().join(format!("c19_def_{}.kit", d));
+            if std::fs::write(&p, tk.def.to_vec()).is_ok() {
+                let sd = rng.next() % 1_000_000;
+                let n = 10;
+                let mut dtexts = digest_texts(sd, n);
+                dtexts.truncate(n);
+                let want = format!("{:016x}", answers_digest(tok, &dtexts));
+                let got = child(&exe, &["digest".into(), p.to_string_lossy().to_string(), sd.to_string(), n.to_string()]);
+                let _ = std::fs::remove_file(&p);
+                lines.push(format!(
+                    "IMPLEQ fresh-process-vs-this-process generated{} seed={} :: {}",
+                    d,
+                    sd,
+                    if got == want { "OK".to_string() } else { format!("DIFF this-process=[{}] fresh-process=[{}] definition={}", want, got, hex(&tk.def.to_vec()[..tk.def.to_vec().len().min(3000)])) }
+                ));
+                out.count("fresh_process_comparisons");
+            }
+        }
         out.group(lines);
     }
     // ---- shipped models
